@@ -1,0 +1,26 @@
+//go:build verif
+
+// Machine-checked contracts (comment-only; compiled only under the build tag "verif").
+package canarystyle
+
+//@ track (CanaryInterface).UpgradeBatch as upgrade
+//@ track (StableInterface).Finalize as stableFinalize
+//@ track (CanaryInterface).Delete as canaryDelete
+//@ track (StableInterface).CalculateBatchContext as calc
+
+//@ func (*realCanaryController).EnsureBatchPodsReadyAndLabeled
+//@ props C11
+//@ requires rc != nil
+//@ ensures ready_checked: result == nil ==> #isReady == 0 || (#isReady == 1 && #isReady.ret0 == nil)
+//@ ensures no_upgrade_here: #upgrade == 0
+
+//@ func (*realCanaryController).Finalize
+//@ props C11
+//@ requires rc != nil
+//@ ensures released: result == nil ==> #stableFinalize == 1 && #stableFinalize.ret0 == nil
+//@ ensures delete_after_release: #canaryDelete > 0 ==> #stableFinalize == 1 && #stableFinalize.ret0 == nil
+
+//@ func (*realCanaryController).UpgradeBatch
+//@ props C01 C11
+//@ requires rc != nil
+//@ ensures one_write: #upgrade <= 1
